@@ -160,6 +160,30 @@ class StubCtx:
                 return None if self.cfg.get("none_last") else b""
         return client_token(i, self.secret, self.tok_size + i)
 
+    # --- read-only attributes of a spnego ContextProxy (a change that consults them must find them) ---------
+    @property
+    def context_attr(self):
+        import spnego
+
+        cr = spnego.ContextReq
+        return cr.mutual_auth | cr.replay_detect | cr.sequence_detect | cr.confidentiality | cr.integrity | cr.dce_style
+
+    @property
+    def context_req(self):
+        return self.context_attr
+
+    @property
+    def negotiated_protocol(self) -> str:
+        return "ntlm"
+
+    protocol = "negotiate"
+    usage = "initiate"
+    client_principal = None
+
+    @property
+    def session_key(self) -> bytes:
+        return hmac.new(self.secret, b"session", hashlib.sha256).digest()
+
     def query_message_sizes(self) -> MessageSizes:
         self.calls.append(("sizes",))
         return MessageSizes(header=self.sig)
